@@ -240,6 +240,55 @@ def gen_k2like(rng):
     return n, judg, "k2like"
 
 
+def gen_congruence(rng):
+    """In-fragment sets on which the congruence closure has work to do: a type skeleton (words, mappings, dynamic and
+    fixed arrays, nested up to depth 3) is instantiated several times over FRESH variables; only the roots of the
+    instances are declared equal, so everything below has to be equated by unification itself, level by level.
+    Every class holds evidence of one kind only (words may contradict each other)."""
+    def skel(d):
+        r = rng.random()
+        if d == 0 or r < 0.3:
+            return ("W",)
+        if r < 0.6:
+            return ("M", skel(d - 1), skel(d - 1))
+        if r < 0.8:
+            return ("D", skel(d - 1))
+        return ("F", skel(d - 1), rng.choice([2, 3, 5]))
+    sk = skel(rng.randrange(1, 4))
+    judg = []
+    counter = [0]
+
+    def fresh():
+        counter[0] += 1
+        return counter[0] - 1
+
+    def inst(t):
+        v = fresh()
+        if t[0] == "W":
+            if rng.random() < 0.6:
+                judg.append((v, word(rng) if rng.random() < 0.3 else "W:%s:%s" % (rng.choice([160, "-"]), rng.choice(BELOW["Address"]))))
+            if rng.random() < 0.1:
+                judg.append((v, "Any"))
+        elif t[0] == "M":
+            a, b = inst(t[1]), inst(t[2])
+            judg.append((v, "M:%d:%d" % (a, b)))
+        elif t[0] == "D":
+            a = inst(t[1])
+            judg.append((v, "D:%d" % a))
+        else:
+            a = inst(t[1])
+            judg.append((v, "F:%d:%d" % (a, t[2])))
+        return v
+    roots = [inst(sk) for _ in range(rng.randrange(2, 5))]
+    n = counter[0]
+    if n > 40:
+        return gen_congruence(rng)
+    for a, b in zip(roots, roots[1:]):
+        judg.append((a, "Eq:%d" % b) if rng.random() < 0.5 else (b, "Eq:%d" % a))
+    rng.shuffle(judg)
+    return n, judg, "congruence"
+
+
 def gen_truth(rng):
     """C15-style: a hidden ground-truth typing; evidence = weakenings of the true type + equalities between
     same-typed variables.  Returns expectations (v, 0) = must not be a conflict; with `inject`, one plainly
@@ -349,7 +398,8 @@ def pick_order(rng):
 def build_inputs(ctx, count):
     rng = ctx.rng
     lines, classes, expects = [], [], []
-    gens = [(gen_random, 0.34), (gen_cyclic, 0.10), (gen_packed, 0.16), (gen_k2like, 0.12), (gen_truth, 0.28)]
+    gens = [(gen_random, 0.30), (gen_cyclic, 0.09), (gen_packed, 0.14), (gen_k2like, 0.11), (gen_truth, 0.24),
+            (gen_congruence, 0.12)]
     seen = set()
     while len(lines) < count:
         r = rng.random()
@@ -402,6 +452,72 @@ def corpus():
     return out
 
 
+def run_balanced(ctx, name, terms, fn, pad):
+    """Evaluates `fn` on every term inside Coq: one coqc per shard, the cases dealt out by size so that the shards
+    are balanced; at most ~250 cases and ~1.5 MB per process. Returns [(index, code)] for the non-zero codes."""
+    if not terms:
+        return []
+    total = sum(len(t) for t in terms)
+    nsh = max(1, min(vlib.NCPU, len(terms) // 8 or 1), (len(terms) + 249) // 250, total // 1500000 + 1)
+    if nsh > vlib.NCPU:
+        nsh = ((nsh + vlib.NCPU - 1) // vlib.NCPU) * vlib.NCPU
+    order = sorted(range(len(terms)), key=lambda i: -len(terms[i]))
+    buckets = [order[k::nsh] for k in range(nsh)]
+    per = max(len(b) for b in buckets)
+    flat, back = [], []
+    for b in buckets:
+        for i in b:
+            flat.append(terms[i])
+            back.append(i)
+        for _ in range(per - len(b)):
+            flat.append(pad)
+            back.append(None)
+    return [(back[i], c) for i, c in vlib.run_cases(ctx, name, HEADER, flat, per_shard=per, fn=fn, timeout=900)
+            if back[i] is not None]
+
+
+ORDER_CODES = {60: "inside the order-free fragment, but a run did not return", 61: "members differ between Sorted and SortedReversed",
+               62: "classes differ between Sorted and SortedReversed", 63: "the classes are not the congruence closure",
+               64: "a class's resolved data differs between Sorted and SortedReversed"}
+
+
+def order_suite(ctx, hb, lines, cov):
+    """C02 at the unification stage: every generated judgement set is run by the implementation under Sorted and under
+    SortedReversed; inside Coq the fragment predicate `order_free` (props/C02_unify.v: unification is PROVED independent
+    of all iteration orders there) is evaluated, and inside the fragment the two results must agree and the classes must
+    be the computed congruence closure."""
+    js = [l for l in lines if l.startswith("J ")]
+    if not js:
+        return
+    a = [re.sub(r"^J \S+", "J sorted", l) for l in js]
+    b = [re.sub(r"^J \S+", "J sortedrev", l) for l in js]
+    ok, outs, diag = vlib.run_harness_sharded(hb, ["unify"], a + b, timeout=600)
+    bad_in = [i for i, t in enumerate(outs) if not t.startswith("UCase")]
+    ctx.oblige("harness:unify:order-pairs", "correspondence", ok and not bad_in, "%s %s" % (diag, [outs[i][:100] for i in bad_in[:3]]))
+    if not ok or bad_in:
+        return
+    n = len(js)
+    def outcome(t):
+        m = re.search(r" \((?:UOk|UBudget|UPanic|UStageErr) ", t)
+        return t[m.start() + 1:t.rfind(' "J ')]
+    terms = ["(%s, %s)" % (outs[i], outcome(outs[n + i])) for i in range(n)]
+    bad = run_balanced(ctx, "order-pairs", terms, "check_order_pair", "(UDebug [], UBudget 0)")
+    codes = collections.Counter(c for _, c in bad)
+    for idx, code in sorted(bad):
+        if code == 99:
+            continue
+        line = a[idx]
+        ctx.violate("C02:unify-order:%d:%s" % (code, line[:80]),
+                    "C02 (unification stage): %s on `%s`" % (ORDER_CODES.get(code, code), line[:300]),
+                    {"suite": "order-pairs", "input": line, "other_order": b[idx], "code": code, "meaning": ORDER_CODES.get(code),
+                     "how": "printf '%s\\n%s\\n' '<input>' '<other_order>' | build/harness-target/debug/slxh unify   (then coq/UnifyCases.v check_order_pair)",
+                     "sorted": outs[idx][:2000], "sortedrev": outs[n + idx][:2000]})
+    inside = n - codes.get(99, 0)
+    cov["order-pairs"] = {"evaluations": n, "inside_order_free_fragment": inside, "outside": codes.get(99, 0),
+                          "check_codes": {str(c): k for c, k in sorted(codes.items())}}
+    ctx.log("order-pairs: %d judgement sets, %d inside the order-free fragment, codes %s" % (n, inside, dict(codes)))
+
+
 def classify_programs(ctx, hb, programs, order="sorted", budget=BUDGET, limits=None):
     """For the whole-pipeline checks (C03): runs disassemble -> VM -> lift -> assign -> infer on each program (hex),
     then the REAL unify under the poll budget, and classifies the outcome inside Coq (UnifyCases.check_case).
@@ -435,25 +551,7 @@ def evaluate(ctx, hb, name, lines, expects, cov, classes):
     if not ok or bad_in:
         return
     terms = ["(%s, %s)" % (t, ex_term(e)) for t, e in zip(outs, expects)]
-    # one coqc per shard; deal the cases out by size so that the shards are balanced
-    # at most ~250 cases and ~1.5 MB per coqc process (memory), at least NCPU shards when there is enough work
-    total = sum(len(t) for t in terms)
-    nsh = max(1, min(vlib.NCPU, len(terms) // 8 or 1), (len(terms) + 249) // 250, total // 1500000 + 1)
-    if nsh > vlib.NCPU:
-        nsh = ((nsh + vlib.NCPU - 1) // vlib.NCPU) * vlib.NCPU
-    order = sorted(range(len(terms)), key=lambda i: -len(terms[i]))
-    buckets = [order[k::nsh] for k in range(nsh)]
-    per = max(len(b) for b in buckets)
-    flat, back = [], []
-    for b in buckets:
-        for i in b:
-            flat.append(terms[i])
-            back.append(i)
-        for _ in range(per - len(b)):
-            flat.append("(UDebug [], ([] : expectation))")
-            back.append(None)
-    bad = [(back[i], c) for i, c in vlib.run_cases(ctx, name, HEADER, flat, per_shard=per, fn="check_case_with", timeout=900)
-           if back[i] is not None]
+    bad = run_balanced(ctx, name, terms, "check_case_with", "(UDebug [], ([] : expectation))")
     codes = collections.Counter()
     outcomes = collections.Counter()
     heavy = 0
@@ -513,6 +611,7 @@ def check(ctx):
             lines, classes, expects = build_inputs(ctx, count)
             dl = debug_lines(ctx.rng, 40 if ctx.quick else 600)
             evaluate(ctx, hb, "random", lines + dl, expects + [[] for _ in dl], cov, classes + ["debug-text"] * len(dl))
+            order_suite(ctx, hb, cl + lines, cov)
             cov["evaluations"] = sum(cov.get(k, {}).get("evaluations", 0) for k in ("corpus", "random"))
             nontrivial = 0
             for l in lines:
